@@ -49,6 +49,9 @@ class Contract:
         self.frame_check = kw.pop("frame_check", True)
         self.closures = kw.pop("closures", {})  # nested def name -> Contract-like dict
         self.unwind = kw.pop("unwind", None)
+        self.witness = kw.pop("witness", None)
+        self.semantic_prune = kw.pop("semantic_prune", False)  # prune conditional expressions of specs with solver queries  # concrete arguments satisfying `requires` (vacuity guard)
+        self.abstract_globals = kw.pop("abstract_globals", {})  # name -> (Ty, [facts]) : verified for every value with these facts
         self.ensures_names = kw.pop("ensures_names", None)
         if kw:
             raise TypeError(f"unknown contract fields {list(kw)}")
@@ -81,6 +84,7 @@ class World:
         self.lemmas = {}
         self.modules = {}  # path -> (ast.Module, source)
         self.fn_index = {}  # key -> RealFn
+        self.loop_index = {}  # id(loop node) -> ordinal in source order within its top-level function
         self.assumptions = []
         self.clause_cache = {}
         self.obj_specs = {}
@@ -163,8 +167,21 @@ class World:
             return None
         fn = RealFn(key, node, self.pymodule(relpath).__dict__, cls=cls)
         fn.relpath = relpath
+        self.index_loops(node)
         self.fn_index[key] = fn
         return fn
+
+    def index_loops(self, fnode):
+        n = [0]
+
+        def visit(x):
+            if isinstance(x, (ast.While, ast.For)):
+                self.loop_index[id(x)] = n[0]
+                n[0] += 1
+            for c in ast.iter_child_nodes(x):
+                visit(c)
+
+        visit(fnode)
 
     def source_hash(self, key):
         fn = self.find_function(key)
@@ -194,6 +211,8 @@ class World:
             from .lemmas import LemmaFn
 
             return LemmaFn(self.lemmas[name])
+        if name in ("implies", "forall_int", "exists_int"):
+            return Builtin(name)
         if name in globs:
             return self.wrap_global(globs[name], name)
         if name in self.BUILTINS:
